@@ -124,6 +124,10 @@ func (z *Int) SetFromDecimal(s string) error {
 	if s == "" {
 		return fmt.Errorf("missing digits")
 	}
+	if s[0] < '0' || s[0] > '9' { // uint256 skips one more leading '+' itself
+		z.neg = false
+		return fmt.Errorf("invalid decimal digit %q", s[0])
+	}
 
 	if err := z.mag.SetFromDecimal(s); err != nil {
 		return err
